@@ -99,6 +99,37 @@ def check(name, y, miss, rep):
             compare(name, "reversal", case, out, outr[::-1], 0, y0, w, lam, p, rep)
 
 
+def dense_case(name, lam, yy, c, rep):
+    nd = -3000.0
+    p = None if name == "fixed" else 0.9
+    fn = (lambda y, d: ws2dgu(y, lam, d)) if p is None else (lambda y, d: ws2dpgu(y, lam, d, p))
+    miss = yy == nd
+    y = np.where(miss, 0.0, yy)
+    w = (~miss).astype("float64")
+    case = {"variant": name, "n": len(yy), "y": yy.tolist(), "c": c, "dense_lambda": lam}
+    rep.case(name + ".offset", case)
+    out = fn(yy, nd)
+    out2 = fn(np.where(miss, nd + c, yy + c), nd + c)
+    compare(name, "offset", case, out, out2, c, y, w, lam, p, rep)
+
+
+def check_offset_dense(rng, rep, count):
+    """many seasonal series x the two fixed-lambda variants x large offsets: an iteration whose stop rule depends on the signal
+    magnitude shows on well under 1 % of the series, so this block is wide and cheap (two kernel calls per case)"""
+    for _ in range(count):
+        n = int(rng.choice([36, 48, 60, 90, 108]))
+        t = np.arange(n)
+        y = np.rint(float(rng.integers(300, 1500)) + float(rng.integers(100, 500)) * np.sin(2 * np.pi * t / 36 + rng.uniform(0, 6.28))
+                    + rng.integers(10, 80) * rng.uniform(-1, 1, n))
+        if rng.random() < 0.5:
+            y[rng.choice(n, size=int(rng.integers(1, 5)), replace=False)] = -3000.0
+        for name in ("fixed", "asym"):
+            for lam in (10.0, 100.0):
+                for c in (8000, 5000):
+                    if np.abs(y[y != -3000.0] + c).max() <= 10000:
+                        dense_case(name, lam, y, c, rep)
+
+
 def check_linear(name, a, b, n, miss, rep):
     fn, p, kind, _ = VARIANTS[name]
     need = 5 if kind in ("g", "gr") else 2
@@ -120,9 +151,10 @@ def check_linear(name, a, b, n, miss, rep):
 
 
 def run(tier, rng, rep):
-    rep.bound = "series 4..90 (200 thorough), |values| + |c| <= 10000, gap patterns, integer offsets 7/-250/1000, all eight variants (+ robust), exactly linear series with gaps"
+    rep.bound = "series 4..90 (200 thorough), |values| + |c| <= 10000, gap patterns, integer offsets 7/-250/1000/5000/8000, all eight variants; 1500 (12000 thorough) seasonal series x fixed-lambda variants x offsets 5000/8000 (+ robust), exactly linear series with gaps"
     rep.rule = "random series (seeded) x variants x transformations; ties decided by recomputing the unrounded curve / the selection criterion; distinct = distinct (variant, transformation, series)"
     sizes = [4, 6, 12, 30, 90] + ([200] if tier == "thorough" else [])
+    check_offset_dense(rng, rep, 1500 if tier == "quick" else 12000)
     for n in sizes:
         for kind in ("none", "random", "runs", "leading", "trailing"):
             for _ in range(1 if tier == "quick" else 4):
@@ -144,7 +176,9 @@ def run(tier, rng, rep):
 
 def replay(v, rep):
     c = v.get("case", {})
-    if "a" in c:
+    if "dense_lambda" in c:
+        dense_case(c["variant"], c["dense_lambda"], np.array(c["y"], dtype="float64"), c["c"], rep)
+    elif "a" in c:
         miss = np.zeros(c["n"], bool); miss[c["missing"]] = True
         check_linear(c["variant"], c["a"], c["b"], c["n"], miss, rep)
     elif c.get("y") is not None:
